@@ -74,7 +74,7 @@ class Sgp4Beta:
             raise TypeError("Not TLE")
 
         self.gravity = self.MODEL
-        self.tle = orbit
+        self.tle = orbit.copy()
         self._init = Init()
 
         i0, Ω0, e0, ω0, M0, n0 = self.tle
